@@ -2442,22 +2442,37 @@ def _np_clip(a, lo, hi, out=None):
 
 
 def _np_divide(a, b, out=None, where=None):
-    A, B = XArray.from_nested(a), XArray.from_nested(exact(b) if not isinstance(b, XArray) else b) if isinstance(b, (XArray, list, tuple)) else None
-    A = XArray.from_nested(a)
-    sh = A.shape
-    Bv = XArray.from_nested(b).broadcast_to(sh).data if isinstance(b, (XArray, list, tuple)) else [exact(b)] * A.size
-    if where is None:
-        vals = [x / y for x, y in zip(A.data, Bv)]
+    A = XArray.from_nested(a if isinstance(a, (XArray, list, tuple)) else [exact(a)])
+    B = XArray.from_nested(b if isinstance(b, (XArray, list, tuple)) else [exact(b)])
+    if not isinstance(a, (XArray, list, tuple)):
+        A = A.reshape(())
+    if not isinstance(b, (XArray, list, tuple)):
+        B = B.reshape(())
+    shapes = [A.shape, B.shape] + ([XArray.from_nested(where).shape] if where is not None and isinstance(where, (XArray, list, tuple)) else []) + ([out.shape] if out is not None else [])
+    nd = max(len(x) for x in shapes)
+    sh = []
+    for k in range(nd):
+        dims = {x[len(x) - nd + k] for x in shapes if len(x) - nd + k >= 0} - {1}
+        if len(dims) > 1:
+            raise XArrayError(f"np.divide: operands could not be broadcast together {shapes}")
+        sh.append(dims.pop() if dims else 1)
+    sh = tuple(sh)
+    Av, Bv = A.broadcast_to(sh).data, B.broadcast_to(sh).data
+    n = len(Av)
+    if where is None or where is True:
+        vals = [x / y for x, y in zip(Av, Bv)]
     else:
-        W = XArray.from_nested(where).broadcast_to(sh).data
-        if not all(isinstance(w, bool) for w in W):
+        Wd = XArray.from_nested(where).broadcast_to(sh).data if isinstance(where, (XArray, list, tuple)) else [where] * n
+        if not all(isinstance(w, bool) for w in Wd):
             raise XArrayError("np.divide where= of undecided booleans")
-        base = out.data if out is not None else [Q(0)] * A.size
-        vals = [(x / y) if w else o for x, y, w, o in zip(A.data, Bv, W, base)]
+        base = out.broadcast_to(sh).data if out is not None else [Q(0)] * n
+        vals = [(x / y) if w else o for x, y, w, o in zip(Av, Bv, Wd, base)]
     if out is not None:
+        if out.shape != sh:
+            raise XArrayError("np.divide out= of another shape")
         out.data[:] = vals
         return out
-    return XArray(sh, vals)
+    return XArray(sh, vals) if sh != () or isinstance(a, XArray) or isinstance(b, XArray) else vals[0]
 
 
 def _np_arccos(a):
